@@ -117,8 +117,8 @@ PROPS = {
             "quick": [job("sim", "mux", "verif", "c06", 8)],
             "thorough": [job("sim", "mux", "verif", "c06", 16), job("dev", "mux", "dev", "c06", 8, extra=["--scale", "0.05"])],
         },
-        "required_targets": {"any": ['aborts', 'id_reuses', 'leak_probes']},
-        "assumptions": COMMON_ASSUMPTIONS + SIM_ASSUMPTIONS + ['flow tables are read through the verif_flow_ids accessor only at quiescent points (1 ms of virtual time with nothing runnable); a table entry is a leak iff neither application holds a stream with that id', 'freed ids are re-issued only at quiescent points: in-flight frames of the previous incarnation are not demanded to be harmless (the protocol has no generation numbers)', "a stream that was finished and then dropped before reading everything sends no Reset; the peer's blocked writer is then an 'absent reader' case and is not demanded to be released"],
+        "required_targets": {"any": ['aborts', 'id_reuses', 'leak_probes', 'held_handle_probes']},
+        "assumptions": COMMON_ASSUMPTIONS + SIM_ASSUMPTIONS + ['flow tables are read through the verif_flow_ids accessor only at quiescent points (1 ms of virtual time with nothing runnable); a table entry is a leak iff neither application holds a stream with that id', 'a handle held after a graceful end keeps its id in the flow table unless a Reset of that flow crossed the wire (the peer answers a late Acknowledge with one); only then is the id forced on the other end', 'freed ids are re-issued only at quiescent points: in-flight frames of the previous incarnation are not demanded to be harmless (the protocol has no generation numbers)', "a stream that was finished and then dropped before reading everything sends no Reset; the peer's blocked writer is then an 'absent reader' case and is not demanded to be released"],
     },
     "C07": {
         "level": "exploration",
@@ -126,7 +126,7 @@ PROPS = {
             "quick": [job("sim", "mux", "verif", "c07", 8), job("thr", "mux", "verif", "c07", 4, extra=["--engine", "thr"])],
             "thorough": [job("sim", "mux", "verif", "c07", 16), job("thr", "mux", "verif", "c07", 16, extra=["--engine", "thr"])],
         },
-        "required_targets": {"any": ['streams_established', 'collision_runs', 'raw_reset_runs', 'raw_bad_connect_runs', 'scripted_rng_runs']},
+        "required_targets": {"any": ['streams_established', 'collision_runs', 'raw_reset_runs', 'raw_bad_connect_runs', 'scripted_rng_runs', 'connect_on_pending_bind_id_runs']},
         "assumptions": COMMON_ASSUMPTIONS + SIM_ASSUMPTIONS + ['flow ids come from a scripted RNG passed to Multiplexor::new_detailed; requests are matched to Connect frames through the unique target host tag'],
     },
     "C08": {
@@ -146,7 +146,7 @@ PROPS = {
                          job("dev", "mux", "dev", "c11", 8, extra=["--scale", "0.05"])],
         },
         "required_targets": {"any": ['dgram_received', 'dgram_arrived_at_full_buffer']},
-        "assumptions": COMMON_ASSUMPTIONS + SIM_ASSUMPTIONS + ['loss licence is computed from the event order: every delivery that finds the (modelled) buffer full licenses one loss; the modelled occupancy is never below the real one, so the bound is never stricter than the statement', 'identity of a datagram = (flow id, port), unique per datagram by construction; payloads >= 8 bytes also carry it'],
+        "assumptions": COMMON_ASSUMPTIONS + SIM_ASSUMPTIONS + ['at the final quiescent point (SIM) the harness drains both datagram queues, so the model occupancy must be zero: reached = received + licensed', 'loss licence is computed from the event order: every delivery that finds the (modelled) buffer full licenses one loss; the modelled occupancy is never below the real one, so the bound is never stricter than the statement', 'identity of a datagram = (flow id, port), unique per datagram by construction; payloads >= 8 bytes also carry it'],
     },
     "C15": {
         "level": "exploration",
@@ -164,7 +164,7 @@ PROPS = {
             "thorough": [job("sim", "mux", "verif", "c16", 16)],
         },
         "required_targets": {"any": ['timeouts_observed', 'live_runs_to_horizon', 'pending_ops_checked']},
-        "assumptions": COMMON_ASSUMPTIONS + SIM_ASSUMPTIONS + ["all time is virtual (tokio paused clock; the TimestampProvider reads tokio's clock); timestamps are exact", "builder order is the client's (interval, then timeout); the reverse order is a recorded probe without verdict", "'never times out' is checked up to a horizon of 2000 intervals"],
+        "assumptions": COMMON_ASSUMPTIONS + SIM_ASSUMPTIONS + ["all time is virtual (tokio paused clock; the TimestampProvider reads tokio's clock); timestamps are exact", "builder order is the client's (interval, then timeout); the reverse order is a recorded probe without verdict", "'never times out' is checked up to a horizon of 2000 intervals", "a Ping sent by the peer is not an answer to ours: a peer that only pings is a peer that stopped answering"],
     },
     "C10": {
         "level": "fault_enumeration",
@@ -255,10 +255,12 @@ PROPS = {
             "quick": [job("letgo", "mux", "verif", "c01b", 4), job("e2e", "e2e", "verif", "c01", 8, timeout=600)],
             "thorough": [job("letgo", "mux", "verif", "c01b", 16), job("e2e", "e2e", "verif", "c01", 16, timeout=3000)],
         },
-        "required_targets": {"any": ["conversations_completed", "udp_replies_checked", "half_close_then_opposite_direction", "close_refuse_abort_paths", "socks5_associations_with_two_targets"]},
+        "required_targets": {"any": ["conversations_completed", "udp_replies_checked", "half_close_then_opposite_direction", "close_refuse_abort_paths", "socks5_associations_with_two_targets", "local_close_with_reply_in_flight", "let_go_cases"]},
         "assumptions": COMMON_ASSUMPTIONS + E2E_ASSUMPTIONS + [
             "absolute oracle with position-addressed payloads instead of a second run over a direct connection: each side must receive exactly the other side's stream, a direction's end is compared as ended / not ended",
             "for refusing / aborting targets only 'the local connection is closed and nothing the target did send is lost' is demanded (a tunnel turns a refused connect into an accepted-then-closed local connection)",
+            "conversations in which the local client closes first demand only that the target's writing ends (error or completion) - 'stuck' = 25 s after the start the target is still inside write() and has not handed over one more byte for 10 s",
+            "c01b (simulator): the far application keeps at least two units of send credit when the near application lets go; with no credit left the protocol has no way to tell it (known finding)",
             "UDP loss is not a violation by itself; only cross-delivery, wrong source address, duplication, modification, a reply produced by another target than the one addressed, a malformed SOCKS5 header, or nothing at all arriving",
         ],
     },
